@@ -175,3 +175,6 @@ def run(ctx, eng):
     cm.include(ctx, eng, 'C11', {'FLOW.queue', 'FLOW.ack-source'},
                'the enforced local limit is the acknowledged one: one '
                'pending value per setting becomes current per ACK')
+    cm.include(ctx, eng, 'C07', {'PAIR.local-reset'},
+               'a stream the library resets itself stops being counted: the '
+               'reset goes through the machine')
